@@ -79,6 +79,7 @@ package s2
 //@   assumed "allocates the interior tracker (no shape is being tracked yet)"
 //@   ensures result != nil && vcFresh(result) && len(result.shapeIDs) == 0
 
+//@ property C13 C04
 //@ func (s *ShapeIndex) applyUpdatesInternal()
 //@   requires vcUpdating(s) && vcUnbuiltEmpty(s)
 //@   modifies s.cells, s.cellMap, s.cellMap{*}, s.pendingRemovals, s.pendingAdditionsPos
@@ -91,6 +92,8 @@ package s2
 //@   loop 2: invariant [idle] s.nextID == 0 ==> len(t.shapeIDs) == 0 && (forall f int :: 0 <= f && f < 6 ==> len(allEdges[f]) == 0)
 //@   loop 3 (face int, t *tracker, allEdges [][]faceEdge): invariant vcFirstUpdate(s) && 0 <= face && face <= 6 && t != nil && len(allEdges) == 6 && (face == 0 ==> len(s.cells) == 0 && len(s.cellMap) == 0)
 //@   loop 3: invariant [idle] s.nextID == 0 ==> len(t.shapeIDs) == 0 && len(s.cells) == 0 && len(s.cellMap) == 0 && (forall f int :: 0 <= f && f < 6 ==> len(allEdges[f]) == 0)
+
+//@ property C13
 
 //@ func (s *ShapeIndex) maybeApplyUpdates()
 //@   requires vcSI(s) && !vcHeld(&s.mu)
@@ -281,15 +284,44 @@ package s2
 
 //@ property C13
 
-// ---------------------------------------------------------------- Polygon.Invert on the two special polygons
+// ---------------------------------------------------------------- Polygon.Invert
 
-// The empty and the full polygon are replaced wholesale when inverted; the replacement must be initialised like any other
-// polygon (bound, sub-region bound, index), or every later query on it dereferences a nil index. (The general case -
-// choosing the loop to invert by turning angle and re-nesting the others - is numerical and not under contract.)
+//@ property C13 C04
+
+//@ func (l *Loop) TurningAngle() float64
+//@   assumed "numerical (curvature of the loop); only selects which shell is inverted"
+//@   requires l != nil
+
+//@ func compareLoops(a, b *Loop) int
+//@   assumed "deterministic tie-break between loops of equal turning angle; only selects which shell is inverted"
+//@   requires a != nil && b != nil
+
+// the last loop of the subtree rooted at loop k (loops are stored in depth-first order)
+//@ func (p *Polygon) LastDescendant(k int) int
+//@   requires p != nil && k < len(p.loops) && (forall j int :: 0 <= j && j < len(p.loops) ==> p.loops[j] != nil)
+//@   ensures [range] k >= 0 ==> k <= result && result < len(p.loops)
+//@   ensures [all] k < 0 ==> result == len(p.loops)-1
+//@   loop 1 (k int): invariant old(k) < k && k <= len(p.loops)
+
+// number of loops re-added by the two passes of Invert up to range index r
+//@ spec func vcSiblingsAdded(r, best, lastBest int) int = vcMinI(r+1, best) + vcMaxI(0, r-lastBest)
+//@ spec func vcChildrenAdded(r, best, lastBest int) int = vcMaxI(0, vcMinI(r, lastBest)-best)
+
+// Inverting keeps every loop: the inverted shell first, then its former siblings (one level deeper), then its former
+// children (one level up); the empty and the full polygon are replaced wholesale. In every case the result is initialised
+// like any other polygon (bound, sub-region bound, index). Which shell is inverted (largest area) is numerical.
 //@ func (p *Polygon) Invert()
-//@   requires p != nil && (len(p.loops) == 0 || (len(p.loops) == 1 && p.loops[0] != nil && len(p.loops[0].vertices) == 1 && p.loops[0].originInside)) && vcRectConsts()
+//@   timeout 300
+//@   requires p != nil && vcRectConsts() && (forall j int :: 0 <= j && j < len(p.loops) ==> p.loops[j] != nil && vcLoopIndexed(p.loops[j]))
+//@   requires len(p.loops) <= 1<<30
 //@   modifies *p
 //@   noframe
 //@   ensures [initialised] p.index != nil && vcSI(p.index) && p.index.nextID == 1 && vcSame(p.subregionBound, ExpandForSubregions(p.bound))
 //@   ensures [empty-becomes-full] old(len(p.loops)) == 0 ==> len(p.loops) == 1
-//@   ensures [full-becomes-empty] old(len(p.loops)) == 1 ==> len(p.loops) == 0
+//@   ensures [full-becomes-empty] old(len(p.loops)) == 1 && old(len(p.loops[0].vertices) == 1 && p.loops[0].originInside) ==> len(p.loops) == 0
+//@   ensures [keeps-every-loop] old(len(p.loops)) >= 1 && !(old(len(p.loops)) == 1 && old(len(p.loops[0].vertices) == 1 && p.loops[0].originInside)) ==> len(p.loops) == old(len(p.loops))
+//@   loop 1 (i int, best int): invariant [best] 1 <= i && 0 <= best && best < i && best < len(p.loops) && (forall j int :: 0 <= j && j < len(p.loops) ==> p.loops[j] != nil && vcLoopIndexed(p.loops[j])) && len(p.loops) == old(len(p.loops))
+//@   loop 2 (rangeindex int, newLoops []*Loop, best int, lastBest int): invariant [siblings] len(newLoops) == 1+vcSiblingsAdded(rangeindex, best, lastBest) && (forall m int :: 0 <= m && m < len(newLoops) ==> newLoops[m] != nil) && vcFreshSlice(newLoops)
+//@   loop 2: invariant [frame] 0 <= best && best <= lastBest && lastBest < len(p.loops) && len(p.loops) == old(len(p.loops)) && (forall j int :: 0 <= j && j < len(p.loops) ==> p.loops[j] != nil)
+//@   loop 3 (rangeindex int, newLoops []*Loop, best int, lastBest int): invariant [children] len(newLoops) == 1+best+(len(p.loops)-1-lastBest)+vcChildrenAdded(rangeindex, best, lastBest) && (forall m int :: 0 <= m && m < len(newLoops) ==> newLoops[m] != nil) && vcFreshSlice(newLoops)
+//@   loop 3: invariant [frame] 0 <= best && best <= lastBest && lastBest < len(p.loops) && len(p.loops) == old(len(p.loops)) && (forall j int :: 0 <= j && j < len(p.loops) ==> p.loops[j] != nil)
